@@ -30,3 +30,11 @@ pub mod verif_hooks_c14;
 /// C19: the real router-info / router-list HTML pages for the verification harness.
 #[cfg(feature = "verif-hooks")]
 pub mod verif_hooks_c19;
+
+/// RotoMethods session stream: the real `RouterHandler::read_from_router`
+/// (re-exported unchanged) so that a handler built with a filter installed
+/// (`verif_hooks_c10_export::mk_handler`) can be run over a whole session.
+#[cfg(feature = "verif-hooks")]
+pub mod verif_hooks_rotomethods {
+    pub use super::router_handler::verif_hooks::read_from_router;
+}
